@@ -200,7 +200,7 @@ class GlobalModelRepository:
         """
         from textx import get_metamodel
 
-        if model:
+        if model is not None:
             self.update_model_in_repo_based_on_filename(model)
         for the_path in search_path:
             full_filename = join(the_path, filename)
